@@ -106,10 +106,52 @@ def scaling_functions(fx, rep):
     return enc, dec
 
 
-def leaf_for(fc, normalized_types=("Duration", "Time")):
+def callee_component(fx, fc, e, depth):
+    """interval of component e[4] of the value an in-crate helper returns, evaluated over the helper's acyclic paths with its
+    parameters bound to the intervals of the caller's arguments (a normalisation block extracted into a helper keeps its meaning)"""
+    if fx is None or depth > 2 or len(e) < 5 or len(e[4]) != 1 or not str(e[4][0]).isdigit():
+        return None
+    t = fc.eb.terms.get(e[3]) if hasattr(fc.eb, "terms") else None
+    if t is None:
+        for bb, t2 in fc.mir.calls():
+            if bb == e[3]:
+                t = t2
+    if t is None or t.callee.indirect or t.callee.res_id not in fx.bodies:
+        return None
+    cb = fx.bodies[t.callee.res_id]
+    if cb.mir is None:
+        return None
+    caller_ie = IntervalEval(leaf_for(fc, fx=fx, depth=depth + 1), (), fc.mir)
+    arg_iv = [caller_ie.ev(a) for a in e[2]]
+    cfc = FnCtx(cb)
+    base_leaf = leaf_for(cfc, fx=fx, depth=depth + 1)
+
+    def leaf(x):
+        if x[0] == "param" and not x[2] and 1 <= x[1] <= len(arg_iv) and arg_iv[x[1] - 1] is not None:
+            return arg_iv[x[1] - 1]
+        return base_leaf(x)
+    comp = int(e[4][0])
+    lo = hi = None
+    for env, trail in PathEvaluator(cb.mir, cb).paths():
+        ret = env.env.get(0)
+        if ret is None or ret[0] != "agg" or comp >= len(ret[2]):
+            return None
+        iv = IntervalEval(leaf, env.constraints, cb.mir).ev(ret[2][comp])
+        if iv is None:
+            return None
+        lo = iv[0] if lo is None else min(lo, iv[0])
+        hi = iv[1] if hi is None else max(hi, iv[1])
+    return None if lo is None else (lo, hi)
+
+
+def leaf_for(fc, normalized_types=("Duration", "Time"), fx=None, depth=0):
     m = fc.mir
 
     def leaf(e):
+        if e[0] == "call" and len(e) > 4 and e[4]:
+            r = callee_component(fx, fc, e, depth)
+            if r is not None:
+                return r
         if e[0] == "param":
             ty = m.locals[e[1]]
             if e[2][-1:] == ("nanosec",):
@@ -153,7 +195,7 @@ def normalisation(fx, rep):
                 continue
             built += 1
             ne = ret[3][ret[5].index("nanosec")]
-            ie = IntervalEval(leaf_for(fc), env.constraints, b.mir)
+            ie = IntervalEval(leaf_for(fc, fx=fx), env.constraints, b.mir)
             iv = ie.ev(ne)
             ok = iv is not None and iv[0] >= 0 and iv[1] <= NS - 1
             n += 1
